@@ -6,13 +6,17 @@ Driver handlers for C18. Requests (all `key=value` tokens after the wrapper name
 * `RETRY <raw|run|cio|tr|ciotr|bld|exe> max=<n|-> init=<ms> cap=<ms> mult=<f64 bits> lim=<ms|-> d=<ms> s=<script>`
   script = `-` or comma-separated `ok` / error-kind names; the i-th outcome carries tag i.
   ↦ `n=<attempts> out=<OK:tag|ERR:Kind:tag|EXH> sl=<delays|->`
-* `BATCH <raw|run> n=<items> size=<s> f=<script>` script tokens `ok|dup|nil|<Kind>` per call (then `ok`)
+* `BATCH <raw|run> n=<items> size=<s> par=<0|1> f=<script>` script tokens `ok|dup|nil|<Kind>` per call (then `ok`);
+  `par` is `BatchConfig.parallel` (`run` only; `raw` has no such flag and must say `par=0`)
   ↦ `calls=<c|c|…> res=<OK:…|ERR:Kind:tag>`
 * `PAGE <raw|run|cio> psize=<k> max=<m|-> p=<script>` page tokens `<len>T|<len>F|<Kind>`
   ↦ `calls=<page:size,…> out=<OK:…|ERR:Kind:tag|EXH>`
 * `TIMEOUT lim=<ms> el=<ms> r=<ok|Kind>` ↦ `OK:0 | ERR:Kind:tag`
 * `IOBATCH max= init= cap= mult= n=<items> s=<script>` ↦ `calls=<item,…> sl=<…> out=<OK:…|ERR:…|EXH>`
-* `TIMING near=<n> reruns=<r> lost=<l>` ↦ `allowed=<max 2 (n/10)> verdict=<ok|exceeded>`
+* `PARALLEL s=<script>` (outcome of operation i when invoked) ↦ `calls=<i,…> out=<OK:…|ERR:Kind:tag>`
+* `CONTEXT name=<token> pre=<acts> ops=<acts> r=<ok|Kind>`; acts = `-` or comma-separated `inc` / `m:<key>:<value>`;
+  `pre` is applied to `OperationContext::new(name)` before the call, `ops` by the operation
+  ↦ `OK:0 name=<token> rc=<n> meta=<key=value,… sorted by key|->` | `ERR:Kind:0`
 -/
 namespace IB.D18
 open IB.Wire IB.Cloud
@@ -120,12 +124,16 @@ def handleBatch : List String → String
   | w :: args =>
     match (kv? "n" args).bind parseNat?, (kv? "size" args).bind parseNat?, (kv? "f" args).map csv with
     | some n, some size, some fs =>
-      if !(w == "raw" || w == "run") || !procScriptOk fs then "BAD-OP"
-      else
-        let r := if w == "raw" then batchInChunks (List.range n) size (procOf fs)
-                 else runBatchOperation (List.range n) ⟨size, false⟩ (procOf fs)
-        let calls := joinOr "|" (r.1.map nats)
-        s!"calls={calls} res={listResStr (some r.2)}"
+      match kv? "par" args with
+      | some par =>
+        if !(w == "raw" || w == "run") || !procScriptOk fs || !(par == "0" || par == "1")
+            || (w == "raw" && par != "0") then "BAD-OP"
+        else
+          let r := if w == "raw" then batchInChunks (List.range n) size (procOf fs)
+                   else runBatchOperation (List.range n) ⟨size, par == "1"⟩ (procOf fs)
+          let calls := joinOr "|" (r.1.map nats)
+          s!"calls={calls} res={listResStr (some r.2)}"
+      | none => "BAD-OP"
     | _, _, _ => "BAD-OP"
   | _ => "BAD-OP"
 
@@ -182,18 +190,44 @@ def handleIoBatch (args : List String) : String :=
     s!"calls={nats r.calls} sl={nats r.sleeps} out={listResStr r.outcome}"
   | _, _, _ => "BAD-OP"
 
-/-- Bound on the timed cases of a run that could not be compared with the model (see
-    `harness/src/c18.rs::check_timing_skip_rate`): at most `max 2 (near / 10)`. Pure arithmetic on the three
-    counts the harness reports; it is a case so that the bound and its verdict are part of the compared stream. -/
-def handleTiming (args : List String) : String :=
-  match (kv? "near" args).bind parseNat?, (kv? "reruns" args).bind parseNat?, (kv? "lost" args).bind parseNat? with
-  | some near, some _, some lost =>
-    let allowed := max 2 (near / 10)
-    s!"allowed={allowed} verdict={if lost > allowed then "exceeded" else "ok"}"
-  | _, _, _ => "BAD-OP"
+def handleParallel (args : List String) : String :=
+  match (kv? "s" args).bind script? with
+  | some script =>
+    let r := runParallel script
+    s!"calls={nats r.calls} out={listResStr (some r.outcome)}"
+  | none => "BAD-OP"
+
+/-- context actions: `inc` = `increment_retry()`, `m:<k>:<v>` = `add_metadata(k, v)` -/
+def act? (t : String) : Option (OperationContext → OperationContext) :=
+  if t == "inc" then some OperationContext.incrementRetry
+  else match t.splitOn ":" with
+    | ["m", k, v] => some (fun c => c.addMetadata k v)
+    | _ => none
+
+def acts? (s : String) : Option (OperationContext → OperationContext) :=
+  (csv s).foldlM (fun (f : OperationContext → OperationContext) t => (act? t).map (fun g => g ∘ f)) id
+
+/-- insertion sort of the association list by key (keys are distinct) -/
+def sortMeta (xs : List (String × String)) : List (String × String) :=
+  xs.foldl (fun acc p => acc.takeWhile (fun q => q.1 < p.1) ++ p :: acc.dropWhile (fun q => q.1 < p.1)) []
+
+def handleContext (args : List String) : String :=
+  match kv? "name" args, (kv? "pre" args).bind acts?, (kv? "ops" args).bind acts?, kv? "r" args with
+  | some name, some pre, some ops, some r =>
+    let res? : Option (Res Nat) :=
+      if r == "ok" then some (.ok 0) else (kindOfName? r).map (fun k => .error ⟨k, 0⟩)
+    match res? with
+    | none => "BAD-OP"
+    | some res =>
+      match runWithContext (pre (OperationContext.new name)) (fun c => (ops c, res)) with
+      | .ok (v, c) =>
+        let kvs := joinOr "," ((sortMeta c.metadata).map (fun p => s!"{p.1}={p.2}"))
+        s!"OK:{v} name={c.operationName} rc={c.retryCount} meta={kvs}"
+      | .error e => "ERR:" ++ e.kind.name ++ ":" ++ tagStr e.tag
+  | _, _, _, _ => "BAD-OP"
 
 def handlers : List (String × (List String → String)) :=
   [("RETRY", handleRetry), ("BATCH", handleBatch), ("PAGE", handlePage), ("TIMEOUT", handleTimeout),
-   ("IOBATCH", handleIoBatch), ("TIMING", handleTiming)]
+   ("IOBATCH", handleIoBatch), ("PARALLEL", handleParallel), ("CONTEXT", handleContext)]
 
 end IB.D18
